@@ -1006,6 +1006,9 @@ class SystemSuite(Suite):
         for i in range(n):
             mode = modes[i % len(modes)]
             sc = gen_scenario(rng, mode)
+            if prop in ("C03", "C04", "C02") and mode in ("plain", "busy") and i % 3 == 2:
+                from suites import sysgen
+                sc = sysgen.cancel_chain(rng)        # structured family: failing root + flagged chains across batches
             out.append({"op": "system.trace", "sc": sc, "mode": mode, "seed": rng.randrange(1 << 30),
                         "breakStale": (i % 2 == 1) if mode == "faults" else False})
         return out
